@@ -21,6 +21,16 @@ theorem code_stack_handleMsg {σ : Type} (S : Store σ) (hS : StoreWf S) (c : Sr
       ∧ st.db = (handle S c db rx o).1 ∧ st.sent = (handle S c db rx o).2.toList :=
   Proofs.CodeStack.stack_handleMsg S hS c sx db rx o rnd hsx hm hb hdb
 
+/-- Whole sequential histories: the translated stack, fed any list of received packets one after the other, never
+panics and ends in the database and the frames of the model handling the same packets (`handleSeq`) — each step of which
+is a run of the system model (`Proofs.Liveness.handle_is_a_run_gen`), so the safety and verdict theorems of C01–C09, which
+hold for every run of that system, hold for every sequential history processed by the regenerated code. -/
+theorem code_stack_sequence {σ : Type} (S : Store σ) (hS : StoreWf S) (c : SrvCfg) (sx : Gen.server.server) (db : IPDB σ)
+    (hist : List (Rx × HOracle × Int)) (hsx : SrvOf sx c) (hdb : DbBounded db) (hok : SeqOk S c db hist) :
+    stackSeq S c sx db hist = .ok (handleSeq S c db (hist.map fun x => (x.1, x.2.1))) :=
+  Proofs.CodeStack.stack_sequence S hS c sx db hist hsx hdb hok
+
+
 /-! Non-vacuity: the hypotheses hold of the concrete run of `Props/C04Code.lean` (a DISCOVER with the broadcast flag,
 `clientsStore`, a database whose range fields are 192.168.1.1–192.168.1.254). -/
 
@@ -37,5 +47,41 @@ example (rnd : Int) :
       ∧ st.sent = (handle clientsStore C04Code.exCfg C04Code.exDb C04Code.exRx C04Code.exOracle).2.toList :=
   code_stack_handleMsg clientsStore C11Code.clientsStore_wf C04Code.exCfg C04Code.exSrv C04Code.exDb C04Code.exRx
     C04Code.exOracle rnd C04Code.ex_srvOf C04Code.ex_msgRanges C04Code.ex_lookupsBounded ex_dbBounded
+
+/-! Non-vacuity of `code_stack_sequence`: the same client sends its DISCOVER twice (a retransmission); the second one
+is handled on the database the first one left (the offered address on hold for the client). -/
+
+def exHist (r1 r2 : Int) : List (Rx × HOracle × Int) :=
+  [(C04Code.exRx, C04Code.exOracle, r1), (C04Code.exRx, C04Code.exOracle, r2)]
+
+/-- The database after the first DISCOVER. -/
+def exDb1 : IPDB Clients := (handle clientsStore C04Code.exCfg C04Code.exDb C04Code.exRx C04Code.exOracle).1
+
+theorem ex_lookupsBounded1 : LookupsBounded clientsStore exDb1 C04Code.exRx C04Code.exOracle := by
+  intro a h
+  have hv : ((getDuid clientsStore exDb1 C04Code.exOracle.t0 C04Code.exRx.msg.chaddr
+      (decodeOptions C04Code.exRx.msg.options).clientIdentifier).1.lookupByDuid clientsStore C04Code.exOracle.t1
+      (getDuid clientsStore exDb1 C04Code.exOracle.t0 C04Code.exRx.msg.chaddr
+        (decodeOptions C04Code.exRx.msg.options).clientIdentifier).2).2 = .ok 3232235877 := by decide
+  rw [hv] at h
+  cases h
+  decide
+
+theorem ex_seqOk (r1 r2 : Int) : SeqOk clientsStore C04Code.exCfg C04Code.exDb (exHist r1 r2) :=
+  ⟨C04Code.ex_msgRanges, C04Code.ex_lookupsBounded, C04Code.ex_msgRanges, ex_lookupsBounded1, trivial⟩
+
+/-- So the translated stack handles both packets without a panic and ends in the model's database and frames (for every
+value of the two jitters)… -/
+example (r1 r2 : Int) :
+    stackSeq clientsStore C04Code.exCfg C04Code.exSrv C04Code.exDb (exHist r1 r2) =
+      .ok (handleSeq clientsStore C04Code.exCfg C04Code.exDb
+            [(C04Code.exRx, C04Code.exOracle), (C04Code.exRx, C04Code.exOracle)]) :=
+  code_stack_sequence clientsStore C11Code.clientsStore_wf C04Code.exCfg C04Code.exSrv C04Code.exDb (exHist r1 r2)
+    C04Code.ex_srvOf ex_dbBounded (ex_seqOk r1 r2)
+
+/-- …and the model (hence the code) answers both with an OFFER to the link-layer broadcast address. -/
+example : (handleSeq clientsStore C04Code.exCfg C04Code.exDb
+            [(C04Code.exRx, C04Code.exOracle), (C04Code.exRx, C04Code.exOracle)]).2.map (·.l2dst) =
+          [bcastMac, bcastMac] := by decide
 
 end PsaDhcp.Props.C01CodeStack
